@@ -205,7 +205,13 @@ func TestC12_DatagramBoundaries(t *testing.T) {
 		lo := [4]byte{127, 0, 0, 1}
 		var rd reader
 		if rapid.Bool().Draw(rt, "peer") {
-			mp, err := multicast.NewUDPPeer(ioc, "udp", "127.0.0.1:0")
+			// (a UDPPeer sets SO_REUSEPORT: a port picked by the kernel could be shared with a peer of another test process)
+			p, release, err := sysx.ClaimUDPPort()
+			if err != nil {
+				rt.Fatalf("INFRA: %v", err)
+			}
+			defer release()
+			mp, err := multicast.NewUDPPeer(ioc, "udp", fmt.Sprintf("127.0.0.1:%d", p))
 			if err != nil {
 				rt.Fatalf("INFRA: NewUDPPeer: %v", err)
 			}
@@ -666,7 +672,13 @@ func TestC12_MembershipHistories(t *testing.T) {
 			rt.Fatalf("INFRA: %v", err)
 		}
 		defer ioc.Close()
-		mp, err := multicast.NewUDPPeer(ioc, "udp", ":0")
+		// a port nobody else can be handed (see sysx.ClaimUDPPort); the port-0 bind form is covered by BindFormsAndGetters
+		claimed, release, err := sysx.ClaimUDPPort()
+		if err != nil {
+			rt.Fatalf("INFRA: %v", err)
+		}
+		defer release()
+		mp, err := multicast.NewUDPPeer(ioc, "udp", fmt.Sprintf(":%d", claimed))
 		if err != nil {
 			rt.Fatalf("INFRA: NewUDPPeer: %v", err)
 		}
